@@ -1,3 +1,15 @@
+/-
+  Proofs/C05Filter.lean — the C05 acceptor (`C05.idle` / `C05.busy`) is insensitive to dropping `done`
+  items and the starts of non-finalize callbacks from a trace without remove_model calls.
+
+  `busy` pops a completed head lazily, at the first callback `call` item of the next pending entry.  If
+  that item is dropped, the run on the filtered trace keeps the old head longer (`Lag`) and catches up
+  at the next kept `call` item of the new head (at the latest its `finalize` callbacks, which are
+  kept).  The old head differs from the new one as a `(tag, model)` pair because the raw run popped
+  it, so no freshness hypothesis on tags is needed; `C05_idle_filter` keeps it only for compatibility
+  with the planned statement (`C05_idle_filter_gen` is the statement without it).
+  `traceRm` at the end shows that the `NoRemove` hypothesis cannot be dropped.
+-/
 import Model.Spec.C05
 import Model.Spec.C07
 
@@ -120,6 +132,15 @@ theorem busy_call_inv (fin0 : Nat) (σ : Q) (sl : Slot) (c m t st : Nat) (l rest
 /-- no remove_model calls (api kind 3) in the trace -/
 def NoRemove (l : List Item) : Prop := ∀ i ∈ l, ∀ t m e, i ≠ .api 3 t m e
 
+/-- the boolean form of `NoRemove` -/
+def noRemoveB (l : List Item) : Bool := l.all fun i => match i with | .api 3 _ _ _ => false | _ => true
+
+theorem noRemove_of_B {l : List Item} (h : noRemoveB l = true) : NoRemove l := by
+  intro i hi t m e he
+  subst he
+  have := List.all_eq_true.mp h _ hi
+  simp at this
+
 theorem NoRemove.tail {x : Item} {l : List Item} (h : NoRemove (x :: l)) : NoRemove l :=
   fun i hi => h i (List.mem_cons_of_mem _ hi)
 
@@ -227,106 +248,237 @@ structure KeepOK (keep : Item → Bool) : Prop where
   fin : ∀ c m t st, keep (.call .finalize c m t st) = true
 
 /-- the acceptor state `σ'` on the filtered trace versus the state `σ` on the raw trace: equal, or the
-filtered run still shows the completed previous head (the `call` item that made the raw run pop it was
-dropped) -/
+filtered run still shows the completed previous head `h` (the `call` item that made the raw run pop it
+was dropped); `h` differs from the raw head because the raw run popped it -/
 def Lag (σ' σ : Q) : Prop :=
-  σ' = σ ∨ (σ'.owner = σ.owner ∧ σ'.fin = true ∧ σ.fin = false ∧ ∃ h, σ'.q = h :: σ.q)
+  σ' = σ ∨ (σ'.owner = σ.owner ∧ σ'.fin = true ∧ σ.fin = false ∧
+    ∃ h x r, σ'.q = h :: x :: r ∧ σ.q = x :: r ∧ h ≠ x)
 
 theorem run_filter {fin0 : Nat} {keep : Item → Bool} (hk : KeepOK keep) {σ : Q} {l rest : List Item}
-    (h : Run fin0 σ l rest) : ∀ σ', Lag σ' σ → (σ'.q.map (·.1) ++ tagsOf l).Nodup →
+    (h : Run fin0 σ l rest) : ∀ σ', Lag σ' σ →
       busy fin0 σ' (l.filter keep) = some (rest.filter keep) := by
   induction h with
   | @done σ c o l rest _ ih =>
-    intro σ' hl hn
+    intro σ' hl
     rw [List.filter_cons]
     split
-    · rw [busy_done]; exact ih σ' hl (by simpa using hn)
-    · exact ih σ' hl (by simpa using hn)
+    · rw [busy_done]; exact ih σ' hl
+    · exact ih σ' hl
   | @callHead σ sl c m t st r l rest hq hf _ ih =>
-    intro σ' hl hn
+    intro σ' hl
     rw [List.filter_cons]
-    rcases hl with rfl | ⟨ho, hf', _, h0, hq'⟩
+    rcases hl with rfl | ⟨ho, hf', _, h0, x, r', hq', hq'', hx⟩
     · split
       · rw [busy_call_head fin0 _ sl c m t st r _ hq hf]
-        exact ih _ (Or.inl rfl) (by simpa using hn)
+        exact ih _ (Or.inl rfl)
       · rename_i hkeep
         have hsl : sl ≠ .finalize := by
           intro hs; subst hs; exact hkeep (hk.fin c m t st)
-        refine ih σ' (Or.inl ?_) (by simpa using hn)
+        refine ih σ' (Or.inl ?_)
         cases σ'; simp_all
-    · split
+    · rw [hq] at hq''
+      obtain ⟨rfl, rfl⟩ := List.cons.inj hq''
+      split
       · have hne : ¬ (h0.1 = t ∧ h0.2 = m) := by
           intro hc
-          rw [hq', hq] at hn
-          simp [hc.1] at hn
-        rw [busy_call_next fin0 σ' sl c m t st h0 r _ (by rw [hq', hq]) hf' hne]
-        refine ih _ (Or.inl ?_) ?_
-        · cases σ; cases σ'; simp_all
-        · rw [hq', hq] at hn
-          simp only [tagsOf_call] at hn
-          exact hn.sublist (by simp)
+          exact hx (Prod.ext hc.1 hc.2)
+        rw [busy_call_next fin0 σ' sl c m t st h0 r _ hq' hf' hne]
+        refine ih _ (Or.inl ?_)
+        cases σ; cases σ'; simp_all
       · rename_i hkeep
         have hsl : sl ≠ .finalize := by
           intro hs; subst hs; exact hkeep (hk.fin c m t st)
-        refine ih σ' (Or.inr ⟨ho, hf', by simp [hsl], h0, hq'⟩) (by simpa using hn)
+        exact ih σ' (Or.inr ⟨ho, hf', by simp [hsl], h0, (t, m), r, hq', hq, hx⟩)
   | @callFin σ c m t st r l rest hq hf hc _ ih =>
-    intro σ' hl hn
+    intro σ' hl
     rcases hl with rfl | ⟨_, _, hff, _⟩
     · rw [List.filter_cons, if_pos (hk.fin c m t st), busy_call_fin fin0 _ c m t st r _ hq hf hc]
-      exact ih _ (Or.inl rfl) (by simpa using hn)
+      exact ih _ (Or.inl rfl)
     · rw [hf] at hff; cases hff
   | @callNext σ sl c m t st h r l rest hq hf hne _ ih =>
-    intro σ' hl hn
+    intro σ' hl
     rcases hl with rfl | ⟨_, _, hff, _⟩
     · rw [List.filter_cons]
       split
       · rw [busy_call_next fin0 _ sl c m t st h r _ hq hf hne]
-        refine ih _ (Or.inl rfl) ?_
-        rw [hq] at hn
-        simp only [tagsOf_call] at hn
-        exact hn.sublist (by simp)
+        exact ih _ (Or.inl rfl)
       · rename_i hkeep
         have hsl : sl ≠ .finalize := by
           intro hs; subst hs; exact hkeep (hk.fin c m t st)
-        exact ih σ' (Or.inr ⟨rfl, hf, by simp [hsl], h, hq⟩) (by simpa using hn)
+        refine ih σ' (Or.inr ⟨rfl, hf, by simp [hsl], h, (t, m), r, hq, rfl, ?_⟩)
+        intro e; subst e; exact hne ⟨rfl, rfl⟩
     · rw [hf] at hff; cases hff
   | @defer σ t m ev l rest _ ih =>
-    intro σ' hl hn
+    intro σ' hl
     rw [List.filter_cons, if_pos (hk.api _ _ _ _), List.filter_cons, if_pos (hk.ret _ _), busy_api0_ret,
       if_pos rfl, if_pos rfl]
-    refine ih _ ?_ ?_
-    · rcases hl with rfl | ⟨ho, hf', hf, h0, hq'⟩
-      · exact Or.inl rfl
-      · exact Or.inr ⟨ho, hf', hf, h0, by simp [hq']⟩
-    · simpa using hn
+    refine ih _ ?_
+    rcases hl with rfl | ⟨ho, hf', hf, h0, x, r, hq', hq, hx⟩
+    · exact Or.inl rfl
+    · exact Or.inr ⟨ho, hf', hf, h0, x, r ++ [(t, m)], by simp [hq'], by simp [hq], hx⟩
   | @refuse σ t m ev l rest _ ih =>
-    intro σ' hl hn
+    intro σ' hl
     rw [List.filter_cons, if_pos (hk.api _ _ _ _), List.filter_cons, if_pos (hk.ret _ _), busy_api0_ret,
       if_pos rfl]
     simp only [Bool.false_eq_true, if_false]
-    refine ih _ hl ?_
-    simp only [tagsOf_api0, tagsOf_ret] at hn
-    exact hn.sublist (by simp)
+    exact ih _ hl
   | @refuseExc σ t m ev e l rest _ ih =>
-    intro σ' hl hn
+    intro σ' hl
     rw [List.filter_cons, if_pos (hk.api _ _ _ _), List.filter_cons, if_pos (hk.raised _ _), busy_api0_raised,
       if_pos rfl]
-    refine ih _ hl ?_
-    simp only [tagsOf_api0, tagsOf_raised] at hn
-    exact hn.sublist (by simp)
+    exact ih _ hl
   | @ret σ d rest hd hq hf =>
-    intro σ' hl hn
+    intro σ' hl
     rcases hl with rfl | ⟨_, _, hff, _⟩
     · rw [List.filter_cons, if_pos (hk.ret _ _), busy_ret_true]
       simp [hd, hq, hf]
     · rw [hf] at hff; cases hff
   | @raised σ d e rest hd =>
-    intro σ' hl hn
+    intro σ' hl
     have ho : σ'.owner = σ.owner := by
       rcases hl with rfl | ⟨ho, _⟩
       · rfl
       · exact ho
     rw [List.filter_cons, if_pos (hk.raised _ _), busy_raised, ho, if_pos hd]
 
+theorem idle_nil (fin0 n : Nat) : idle fin0 n [] = true := by
+  cases n <;> simp [idle]
+
+theorem idle_api0_some (fin0 n d m ev : Nat) (l rest : List Item)
+    (h : busy fin0 { owner := d, q := [(d, m)], fin := false } l = some rest) :
+    idle fin0 (n + 1) (.api 0 d m ev :: l) = idle fin0 n rest := by
+  rw [idle.eq_def]
+  simp [h]
+
+theorem idle_api0_refused (fin0 n d m ev : Nat) (l : List Item) :
+    idle fin0 (n + 1) (.api 0 d m ev :: .ret d false :: l) = idle fin0 n l := by
+  rw [idle.eq_def]
+  simp [busy_ret_false]
+
+theorem idle_inv (fin0 n : Nat) (l : List Item) (h : idle fin0 n l = true) (hnr : NoRemove l) :
+    l = [] ∨ ∃ n' d m ev l1, n = n' + 1 ∧ l = .api 0 d m ev :: l1 ∧
+      ((∃ rest, busy fin0 { owner := d, q := [(d, m)], fin := false } l1 = some rest ∧ idle fin0 n' rest = true) ∨
+       (∃ l', l1 = .ret d false :: l' ∧ idle fin0 n' l' = true)) := by
+  unfold idle at h
+  split at h
+  · exact Or.inl rfl
+  · cases h
+  · rename_i n' d m ev l1
+    refine Or.inr ⟨n', d, m, ev, l1, rfl, rfl, ?_⟩
+    split at h
+    · rename_i rest hb
+      exact Or.inl ⟨rest, hb, h⟩
+    · split at h
+      · rename_i d' l' _
+        simp only [Bool.and_eq_true, decide_eq_true_eq] at h
+        obtain ⟨rfl, h⟩ := h
+        exact Or.inr ⟨l', rfl, h⟩
+      · cases h
+  · rename_i r m ev r' b l1
+    exact absurd rfl (hnr _ List.mem_cons_self r m ev)
+  · rename_i r m ev r' e l1
+    exact absurd rfl (hnr _ List.mem_cons_self r m ev)
+  · cases h
+
 end C05F
+
+/-- the C05 acceptor is insensitive to dropping `done` items and non-finalize callback starts, on
+traces which contain no remove_model call -/
+theorem C05_idle_filter_gen (fin0 : Nat) (keep : Item → Bool) (hk : C05F.KeepOK keep) :
+    ∀ (n : Nat) (l : List Item), C05F.NoRemove l →
+      C05.idle fin0 n l = true → C05.idle fin0 n (l.filter keep) = true := by
+  intro n
+  induction n with
+  | zero =>
+    intro l hnr h
+    rcases C05F.idle_inv fin0 0 l h hnr with rfl | ⟨n', _, _, _, _, hn, _⟩
+    · simp [C05F.idle_nil]
+    · omega
+  | succ n ih =>
+    intro l hnr h
+    rcases C05F.idle_inv fin0 (n + 1) l h hnr with rfl | ⟨n', d, m, ev, l1, hn, rfl, hc⟩
+    · simp [C05F.idle_nil]
+    · obtain rfl : n = n' := by omega
+      rw [List.filter_cons, if_pos (hk.api _ _ _ _)]
+      rcases hc with ⟨rest, hb, hi⟩ | ⟨l', rfl, hi⟩
+      · have hrun := C05F.busy_run fin0 _ l1 _ rest (Nat.le_refl _) hnr.tail hb
+        have hsuf := hrun.suffix
+        have hb' := C05F.run_filter (keep := keep) hk hrun _ (Or.inl rfl)
+        rw [C05F.idle_api0_some fin0 n d m ev _ _ hb']
+        exact ih rest (fun i hi' => hnr i (List.mem_cons_of_mem _ (hsuf.subset hi'))) hi
+      · rw [List.filter_cons, if_pos (hk.ret _ _), C05F.idle_api0_refused]
+        exact ih l' hnr.tail.tail hi
+
+/-- the statement with the (unnecessary) tag-freshness hypothesis, as originally planned -/
+theorem C05_idle_filter (fin0 : Nat) (keep : Item → Bool) (hk : C05F.KeepOK keep) :
+    ∀ (n : Nat) (l : List Item), C05F.NoRemove l → (C05F.tagsOf l).Nodup →
+      C05.idle fin0 n l = true → C05.idle fin0 n (l.filter keep) = true :=
+  fun n l h1 _ h => C05_idle_filter_gen fin0 keep hk n l h1 h
+
+theorem C07_keepOK (cfg : Cfg) (sc : Script) : C05F.KeepOK (C07.keep cfg sc) := by
+  refine ⟨?_, ?_, ?_, ?_⟩
+  · intros; rfl
+  · intros; rfl
+  · intros; rfl
+  · intros; simp [C07.keep, C07.isCondSlot]
+
+/-- instance: the observation map of C07 -/
+theorem C05_idle_obsC07_gen (fin0 : Nat) (cfg : Cfg) (sc : Script) (n : Nat) (l : List Item)
+    (h1 : C05F.NoRemove l) (h : C05.idle fin0 n l = true) :
+    C05.idle fin0 n (C07.obsC07 cfg sc l) = true :=
+  C05_idle_filter_gen fin0 (C07.keep cfg sc) (C07_keepOK cfg sc) n l h1 h
+
+theorem C05_idle_obsC07 (fin0 : Nat) (cfg : Cfg) (sc : Script) (n : Nat) (l : List Item)
+    (h1 : C05F.NoRemove l) (_h2 : (C05F.tagsOf l).Nodup) (h : C05.idle fin0 n l = true) :
+    C05.idle fin0 n (C07.obsC07 cfg sc l) = true :=
+  C05_idle_obsC07_gen fin0 cfg sc n l h1 h
+
+/-! ### non-vacuity -/
+
+namespace C05F
+
+/-- drops every `done` item and the starts of callback 3 in slot `before` -/
+def keepEx : Item → Bool
+  | .done _ _ => false
+  | .call .before 3 _ _ _ => false
+  | _ => true
+
+theorem keepEx_ok : KeepOK keepEx := ⟨fun _ _ _ _ => rfl, fun _ _ => rfl, fun _ _ => rfl, fun _ _ _ _ => rfl⟩
+
+/-- two sessions; in the first one a callback of the event 1 defers the trigger 2, and the first
+callback of the deferred event (the item that makes the raw run pop the completed head) is dropped -/
+def traceEx : List Item :=
+  [ .api 0 1 0 5,
+      .call .before 2 0 1 0, .api 0 2 0 6, .ret 2 true, .done 2 (.ret true),
+      .call .finalize 9 0 1 0, .done 9 (.ret true),
+      .call .before 3 0 2 0, .done 3 (.ret true),
+      .call .finalize 9 0 2 0, .done 9 (.ret true),
+    .ret 1 true,
+    .api 0 3 0 5, .call .finalize 9 0 3 0, .done 9 (.ret true), .ret 3 true ]
+
+example : C05.idle 9 2 traceEx = true := by decide
+example : traceEx.filter keepEx =
+    [ .api 0 1 0 5, .call .before 2 0 1 0, .api 0 2 0 6, .ret 2 true, .call .finalize 9 0 1 0,
+      .call .finalize 9 0 2 0, .ret 1 true, .api 0 3 0 5, .call .finalize 9 0 3 0, .ret 3 true ] := by decide
+example : C05.idle 9 2 (traceEx.filter keepEx) = true := by decide
+example : NoRemove traceEx := noRemove_of_B (by decide)
+example : C05.idle 9 2 (traceEx.filter keepEx) = true :=
+  C05_idle_filter_gen 9 keepEx keepEx_ok 2 traceEx
+    (noRemove_of_B (by decide)) (by decide)
+
+/-- the `NoRemove` hypothesis matters: a remove_model issued from the dropped first callback of the
+deferred event removes that event from the lagging queue of the filtered run only -/
+def traceRm : List Item :=
+  [ .api 0 1 0 5,
+      .call .before 2 0 1 0, .api 0 2 1 6, .ret 2 true,
+      .call .finalize 9 0 1 0,
+      .call .before 3 1 2 0, .api 3 7 1 0, .ret 7 true,
+      .call .finalize 9 1 2 0,
+    .ret 1 true ]
+
+example : C05.idle 9 1 traceRm = true := by decide
+example : C05.idle 9 1 (traceRm.filter keepEx) = false := by decide
+
+end C05F
+
 end TM
